@@ -85,7 +85,65 @@ class C13(Check):
             Space(f"strings<={L}", {"alphabet": ALPHA, "maxlen": L, "extra": len(CODELIKE)}, vals, runner="run_str"),
             Space("scalars+nests", {"scalars": len(SCALARS), "nesting": "list/tuple/dict to depth 2"},
                   (lambda: list(range(len(_nested())))), runner="run_nest"),
+            Space("callback-metadata", {"pairs": "every ordered pair of values that are equal but of different type (True/1/1.0, False/0/0.0/-0.0, "
+                                                 "(1, 2)/(1, 2.0), 'a'/b'a' is unequal and serves as control)",
+                                        "where": "the earlier dictionary put on by the user / on a derived stream; the callback at the top of the lambda / in a nested lambda"},
+                  (lambda: [(a, b, w) for grp in ([True, 1, 1.0], [False, 0, 0.0, -0.0], [(1, 2), (1, 2.0)], ["a", b"a"]) for a in grp for b in grp
+                            if not same(a, b) for w in ("user:top", "user:nested", "derived:top", "derived:nested")]), runner="run_cbmd"),
         ]
+
+    # ------------------------------------------------------------------ metadata attached by callbacks
+    def run_cbmd(self, payload):
+        """A callback attaches MetaData({'k': b}) - at the top of the lambda or inside a nested lambda - on a stream that
+        already carries MetaData({'k': a}) with a == b but type(a) != type(b): the emitted query must hold a literal that
+        evaluates back to {'k': b} with b's type."""
+        from typing import Iterable
+
+        from func_adl import EventDataset, func_adl_callback
+
+        a, b, where = payload
+        canon = f"callback-metadata|{a!r}|{b!r}|{where}"
+        res = {"n": 1, "nt": [canon], "oc": [], "tags": {}, "viol": []}
+
+        def cb(s, call):
+            return s.MetaData({"k": b, "who": "callback"}), call
+
+        class Jet:
+            @func_adl_callback(cb)
+            def pt(self) -> float: ...
+
+        class Ev:
+            @func_adl_callback(cb)
+            def met(self) -> float: ...
+
+            def jets(self) -> Iterable[Jet]: ...
+
+        class DS(EventDataset):
+            async def execute_result_async(self, q, title=None):
+                return q
+
+        base = DS(Ev).MetaData({"k": a, "who": "callback"}) if where.startswith("user") else DS(Ev).Select("lambda e: e").MetaData({"k": a, "who": "callback"})
+        lam = "lambda e: e.jets().Select(lambda j: j.pt())" if where.endswith("nested") else "lambda e: e.met()"
+        try:
+            st = base.Select(lam)
+        except Exception as e:
+            res["viol"].append({"kind": f"callback-metadata:raised:{type(e).__name__}", "canon": canon, "msg": str(e)[:120]})
+            return res
+        found = []
+        for n in ast.walk(st.query_ast):
+            if isinstance(n, ast.Call) and isinstance(n.func, ast.Name) and n.func.id == "MetaData":
+                stv = literal_value(n.args[1])
+                if stv[0] == "ok":
+                    found.append(stv[1])
+        ok_b = any(same(d, {"k": b, "who": "callback"}) for d in found)
+        ok_a = any(same(d, {"k": a, "who": "callback"}) for d in found)
+        if not (ok_a and ok_b):
+            res["oc"].append("lost")
+            res["viol"].append({"kind": "callback-metadata:dictionary-missing-or-altered", "canon": canon,
+                                "msg": f"wanted both {{'k': {a!r}}} and {{'k': {b!r}}} (same types), found {found}"})
+        else:
+            res["oc"].append("faithful")
+        return res
 
     # ------------------------------------------------------------------ entry points
     def _entry_points(self, v):
@@ -145,6 +203,22 @@ class C13(Check):
                     call = lam.body
                     return lam, (call.args[0] if isinstance(call, ast.Call) and call.args else None)
                 yield "typed-default" + ("" if modname == "model_module" else ":module-named-func_adl_*"), typed
+            # defaulted positional parameters followed by keyword-only ones: every default belongs to ITS parameter
+            src2 = (f"class Ev:\n    def m(self, a: int = 11, p: int = {v!r}, *, flag: bool = True, tag: str = 'x') -> float: ...\n")
+            g2 = {"__name__": "model_module"}
+            exec(src2, g2)
+
+            def typed_kwonly(Ev=g2["Ev"]):
+                s = DS(Ev).Select("lambda e: e.m(12)")
+                lam = s.query_ast.args[1]
+                call = lam.body
+                if not (isinstance(call, ast.Call) and len(call.args) == 4 and not call.keywords):
+                    raise RuntimeError(f"typed-default:kwonly: not in full positional form: {ast.unparse(lam)}")
+                rest = [literal_value(call.args[i]) for i in (0, 2, 3)]
+                if rest != [("ok", 12), ("ok", True), ("ok", "x")]:
+                    raise RuntimeError(f"typed-default:kwonly: neighbours of the default are wrong: {ast.unparse(lam)}")
+                return lam, call.args[1]
+            yield "typed-default:before-keyword-only", typed_kwonly
         # captured closure variable / global
         fn = f"<c13mod{_N[0]}>"
         _N[0] += 1
@@ -153,6 +227,7 @@ class C13(Check):
                 "def build_nested(ds, v):\n    return ds.Select(\n        lambda e: e.jets.Select(lambda j: j.f(v))\n    )\n"
                 "def build_nested2(ds, v):\n    return ds.Select(\n        lambda e: e.jets.Select(lambda j: j.tr.Where(lambda t: t.f(v) > 1))\n    )\n"
                 "def build_comp(ds, v):\n    return ds.Select(\n        lambda e: [j.f(v) for j in e.jets if j.pt > 1]\n    )\n"
+                "H = None\ndef build_h(ds):\n    return ds.Select(\n        lambda e: e.f(H.V)\n    )\n"
                 "def build_other(ds, v):\n    return ds.Select(\n        lambda e: e.jets.OrderBy(lambda j: j.f(v))\n    )\n")
         linecache.cache[fn] = (len(text), None, text.splitlines(True), fn)
         g = {}
@@ -168,6 +243,22 @@ class C13(Check):
             return lam, lam.body.args[0]
         yield "captured-closure", closure
         yield "captured-global", glob
+
+        # the value held as a class constant / an instance attribute / a module attribute and reached through that holder
+        def held(kind):
+            def run():
+                import types as _types
+
+                holder = {"class": type("Cfg", (), {"V": v}), "instance": type("Cfg", (), {"__init__": lambda self: setattr(self, "V", v)})(),
+                          "module": _types.ModuleType("cfgmod")}[kind]
+                if kind == "module":
+                    holder.V = v
+                g["H"] = holder
+                lam = g["build_h"](DS()).query_ast.args[1]
+                return lam, lam.body.args[0]
+            return run
+        for kind in ("class", "instance", "module"):
+            yield f"captured-attribute:{kind}", held(kind)
 
         def deeper(which):
             def run():
